@@ -1,7 +1,1077 @@
-//! C13 — not implemented yet.
-use vcore::Ctx;
+//! C13 — source maps point at matching text on both sides.
+//!
+//! Inputs: corpus files that build (alone, or as one member of the whole
+//! `testcases/veryl` project / the std library), pristine and re-laid with
+//! generated separators and injected comments (multi-byte, multi-line, CRLF),
+//! × generated `[format]` / `[build]` options that change layout.
+//! The real emitter runs with source-map generation exactly as
+//! `cmd_build.rs` does; the `.sv.map` bytes are decoded twice (the
+//! `sourcemap` crate, and an own VLQ decoder that keeps the file order).
+//!
+//! Oracle (the property text, nothing more):
+//!  1. every entry: the emitted SV, at (dst_line, dst_col), starts with the
+//!     entry's name;
+//!  2. every entry: (src_line, src_col) is the start of a token or of a
+//!     comment of the Veryl source — start positions are recomputed from the
+//!     raw text (byte offsets → line / character column), not taken from the
+//!     lexer's line/column fields;
+//!  3. entries are in non-decreasing (dst_line, dst_col) order in the file;
+//!  4. every output line containing a mapped identifier has ≥ 1 entry, where
+//!     "mapped identifier" = an identifier word of the output, outside comments
+//!     and string literals, whose text is an `Identifier` token of the source
+//!     file *and* the name of at least one entry of this map (an identifier the
+//!     map maps).  Words the emitter writes itself (keywords, mangled names,
+//!     the argument of `` `ifdef ``) are outside the clause and counted.
+//!
+//! Entries with an empty name (the zero-width start-of-file token, a trailing
+//! separator the emitter drops) have no text: clause 1 is vacuous for them
+//! (counted); their source position must still be a token start (the start of
+//! the file for the start token).
+//!
+//! Conventions derived from the code: the map is 0-based in lines and
+//! columns; lines are separated by `\n` (a `\r` before it belongs to the
+//! line); columns count characters (Unicode scalar values) on both sides —
+//! parol's token columns and the renderer's `col` both do.
 
-pub fn run(_ctx: &Ctx) {
-    println!("INCONCLUSIVE property=C13: check not implemented");
-    std::process::exit(2);
+use crate::pipe::{self, BuildResult, FmtOpts, SrcFile};
+use std::collections::BTreeSet;
+use std::path::{Path, PathBuf};
+use vcore::{CaseCfg, Ctx, Draw, Outcome, hash_str, json};
+use vgen::relayout::{self, LayoutOpts};
+use veryl_parser::Parser;
+use veryl_parser::token_collector::TokenCollector;
+use veryl_parser::veryl_token::TokenSource;
+use veryl_parser::veryl_walker::VerylWalker;
+
+// ---------------------------------------------------------------------------
+// independent position tables
+// ---------------------------------------------------------------------------
+
+/// byte offset → (0-based line, 0-based character column); lines end at `\n`.
+pub struct LineTable<'a> {
+    text: &'a str,
+    starts: Vec<usize>,
+}
+
+impl<'a> LineTable<'a> {
+    pub fn new(text: &'a str) -> Self {
+        let mut starts = vec![0usize];
+        for (i, b) in text.bytes().enumerate() {
+            if b == b'\n' {
+                starts.push(i + 1);
+            }
+        }
+        LineTable { text, starts }
+    }
+    pub fn locate(&self, pos: usize) -> (u32, u32) {
+        let li = match self.starts.binary_search(&pos) {
+            Ok(i) => i,
+            Err(i) => i - 1,
+        };
+        (li as u32, self.text[self.starts[li]..pos].chars().count() as u32)
+    }
+    pub fn lines(&self) -> usize {
+        self.starts.len()
+    }
+    /// the text of line `li` without its `\n`
+    pub fn line(&self, li: usize) -> Option<&'a str> {
+        let s = *self.starts.get(li)?;
+        let e = self.starts.get(li + 1).map(|e| e - 1).unwrap_or(self.text.len());
+        Some(&self.text[s..e])
+    }
+    /// byte offset of character column `col` of line `li`; `None` beyond the end of the line
+    pub fn offset(&self, li: usize, col: usize) -> Option<usize> {
+        let s = *self.starts.get(li)?;
+        let l = self.line(li)?;
+        if col == 0 {
+            return Some(s);
+        }
+        let mut n = 0;
+        for (i, _) in l.char_indices() {
+            if n == col {
+                return Some(s + i);
+            }
+            n += 1;
+        }
+        if n == col { Some(s + l.len()) } else { None }
+    }
+}
+
+pub struct SrcStarts {
+    pub token_starts: BTreeSet<(u32, u32)>,
+    pub comment_starts: BTreeSet<(u32, u32)>,
+    /// positions of zero-length tokens (the grammar's start-of-file token)
+    pub empty_token_starts: BTreeSet<(u32, u32)>,
+    /// texts of the identifier-shaped tokens of the source
+    pub ident_words: BTreeSet<String>,
+    pub tokens: usize,
+    pub comments: usize,
+}
+
+fn is_ident_word(s: &str) -> bool {
+    let b = s.as_bytes();
+    !b.is_empty()
+        && (b[0].is_ascii_alphabetic() || b[0] == b'_')
+        && b.iter().all(|c| c.is_ascii_alphanumeric() || *c == b'_')
+}
+
+/// Texts of the `Identifier` tokens of a syntax tree (keywords excluded).
+#[derive(Default)]
+struct IdentCollector {
+    words: BTreeSet<String>,
+}
+
+impl VerylWalker for IdentCollector {
+    fn identifier(&mut self, arg: &veryl_parser::veryl_grammar_trait::Identifier) {
+        let t = arg.identifier_token.token.to_string();
+        // raw identifiers `r#x` are emitted without the prefix
+        let t = t.strip_prefix("r#").unwrap_or(&t).to_string();
+        if is_ident_word(&t) {
+            self.words.insert(t);
+        }
+    }
+}
+
+/// Comment starts in a gap between two tokens (own lexer: `//…` to end of
+/// line, `/* … */`).
+fn gap_comments(src: &str, from: usize, to: usize, out: &mut Vec<usize>) {
+    let b = src.as_bytes();
+    let mut i = from;
+    while i < to {
+        if b[i] == b'/' && i + 1 < to && b[i + 1] == b'/' {
+            out.push(i);
+            while i < to && b[i] != b'\n' {
+                i += 1;
+            }
+        } else if b[i] == b'/' && i + 1 < to && b[i + 1] == b'*' {
+            out.push(i);
+            i += 2;
+            while i + 1 < to && !(b[i] == b'*' && b[i + 1] == b'/') {
+                i += 1;
+            }
+            i = (i + 2).min(to);
+        } else {
+            i += 1;
+        }
+    }
+}
+
+/// Start positions of all tokens and comments of `src`.  Token byte ranges
+/// come from the parser (and are verified against the text), everything else
+/// is recomputed here.  `Err` = the text is outside the domain (does not
+/// parse, or the lexer's byte offsets are inconsistent = C12's business).
+pub fn src_starts(src: &str) -> Result<SrcStarts, String> {
+    let parser = Parser::parse(src, &Path::new("c13-oracle.veryl")).map_err(|_| "source does not parse".to_string())?;
+    let mut col = TokenCollector::new(false);
+    col.veryl(&parser.veryl);
+    let mut toks: Vec<(usize, usize, String)> = col
+        .tokens
+        .iter()
+        .filter(|t| matches!(t.source, TokenSource::File { .. }))
+        .map(|t| (t.pos as usize, t.length as usize, t.to_string()))
+        .collect();
+    toks.sort();
+    toks.dedup();
+    let mut ic = IdentCollector::default();
+    ic.veryl(&parser.veryl);
+    let lt = LineTable::new(src);
+    let mut r = SrcStarts {
+        token_starts: BTreeSet::new(),
+        comment_starts: BTreeSet::new(),
+        // the grammar's zero-width start-of-file token (synthesised at 1:1)
+        empty_token_starts: BTreeSet::from([(0, 0)]),
+        ident_words: ic.words,
+        tokens: 0,
+        comments: 0,
+    };
+    let mut prev_end = 0usize;
+    let mut in_embed = false;
+    let mut cs = Vec::new();
+    for (pos, len, text) in &toks {
+        let (pos, len) = (*pos, *len);
+        if pos < prev_end {
+            return Err("lexer byte offsets overlap (C12)".into());
+        }
+        // the parser works on a newline-terminated copy
+        let end = (pos + len).min(src.len());
+        if src.get(pos..end).map(|s| text.starts_with(s) && text.len() - s.len() <= 1) != Some(true) {
+            return Err("lexer byte offsets do not match the text (C12)".into());
+        }
+        if len == 0 {
+            // zero-length grammar tokens (the start-of-file token)
+            if pos <= src.len() {
+                r.empty_token_starts.insert(lt.locate(pos));
+            }
+            continue;
+        }
+        if !in_embed {
+            gap_comments(src, prev_end, pos, &mut cs);
+        }
+        r.token_starts.insert(lt.locate(pos));
+        r.tokens += 1;
+        if text == "{{{" {
+            in_embed = true;
+        } else if text == "}}}" {
+            in_embed = false;
+        }
+        prev_end = end;
+    }
+    gap_comments(src, prev_end.min(src.len()), src.len(), &mut cs);
+    for c in cs {
+        r.comment_starts.insert(lt.locate(c));
+        r.comments += 1;
+    }
+    Ok(r)
+}
+
+// ---------------------------------------------------------------------------
+// decoding
+// ---------------------------------------------------------------------------
+
+#[derive(Clone, Debug, PartialEq, Eq, PartialOrd, Ord)]
+pub struct Entry {
+    pub dl: u32,
+    pub dc: u32,
+    pub sl: u32,
+    pub sc: u32,
+    pub name: Option<String>,
+}
+
+fn b64(c: u8) -> Option<i64> {
+    Some(match c {
+        b'A'..=b'Z' => c - b'A',
+        b'a'..=b'z' => c - b'a' + 26,
+        b'0'..=b'9' => c - b'0' + 52,
+        b'+' => 62,
+        b'/' => 63,
+        _ => return None,
+    } as i64)
+}
+
+/// Source Map v3 "mappings" decoder that keeps the order of the file.
+pub fn decode_raw(map: &[u8]) -> Result<Vec<Entry>, String> {
+    let v: serde_json::Value = serde_json::from_slice(map).map_err(|e| format!("map is not JSON: {e}"))?;
+    let mappings = v.get("mappings").and_then(|m| m.as_str()).ok_or("no mappings")?;
+    let names: Vec<String> = v
+        .get("names")
+        .and_then(|n| n.as_array())
+        .map(|a| a.iter().map(|x| x.as_str().unwrap_or("").to_string()).collect())
+        .unwrap_or_default();
+    let mut out = Vec::new();
+    let (mut sl, mut sc, mut ni) = (0i64, 0i64, 0i64);
+    for (dl, line) in mappings.split(';').enumerate() {
+        let mut dc = 0i64;
+        for seg in line.split(',') {
+            if seg.is_empty() {
+                continue;
+            }
+            let mut vals = Vec::new();
+            let (mut cur, mut shift) = (0i64, 0u32);
+            for c in seg.bytes() {
+                let d = b64(c).ok_or("bad base64 digit")?;
+                cur |= (d & 31) << shift;
+                if d & 32 != 0 {
+                    shift += 5;
+                } else {
+                    let neg = cur & 1 != 0;
+                    let x = cur >> 1;
+                    vals.push(if neg { -x } else { x });
+                    cur = 0;
+                    shift = 0;
+                }
+            }
+            if vals.is_empty() {
+                return Err("empty segment".into());
+            }
+            dc += vals[0];
+            let mut name = None;
+            if vals.len() >= 4 {
+                sl += vals[2];
+                sc += vals[3];
+                if vals.len() >= 5 {
+                    ni += vals[4];
+                    name = Some(names.get(ni as usize).cloned().ok_or("name index out of range")?);
+                }
+            } else {
+                return Err("segment without a source position".into());
+            }
+            if dc < 0 || sl < 0 || sc < 0 {
+                return Err(format!("negative position in the map (dst col {dc}, src {sl}:{sc})"));
+            }
+            out.push(Entry {
+                dl: dl as u32,
+                dc: dc as u32,
+                sl: sl as u32,
+                sc: sc as u32,
+                name,
+            });
+        }
+    }
+    Ok(out)
+}
+
+pub fn decode_crate(map: &[u8]) -> Result<Vec<Entry>, String> {
+    let sm = sourcemap::SourceMap::from_slice(map).map_err(|e| format!("sourcemap crate rejects the map: {e}"))?;
+    Ok(sm
+        .tokens()
+        .map(|t| Entry {
+            dl: t.get_dst_line(),
+            dc: t.get_dst_col(),
+            sl: t.get_src_line(),
+            sc: t.get_src_col(),
+            name: t.get_name().map(|s| s.to_string()),
+        })
+        .collect())
+}
+
+// ---------------------------------------------------------------------------
+// the oracle
+// ---------------------------------------------------------------------------
+
+#[derive(Default, Debug)]
+pub struct MapReport {
+    pub entries: usize,
+    pub comment_entries: usize,
+    pub multiline_names: usize,
+    pub ident_lines: usize,
+    pub lines_outside_clause4: usize,
+    pub multibyte_before_dst: usize,
+    pub multibyte_before_src: usize,
+    pub empty_names: usize,
+    pub mapped_idents: usize,
+    pub directive_lines_without_entry: usize,
+    pub empty_names_beyond_line_end: usize,
+}
+
+/// Identifier words of one SV line outside comments and strings.
+/// `in_block` = the line starts inside a block comment.
+fn sv_line_words(line: &str, in_block: &mut bool, out: &mut Vec<String>) {
+    let b = line.as_bytes();
+    let mut i = 0;
+    while i < b.len() {
+        if *in_block {
+            if b[i] == b'*' && i + 1 < b.len() && b[i + 1] == b'/' {
+                *in_block = false;
+                i += 2;
+            } else {
+                i += 1;
+            }
+            continue;
+        }
+        let c = b[i];
+        if c == b'/' && i + 1 < b.len() && b[i + 1] == b'/' {
+            return;
+        } else if c == b'/' && i + 1 < b.len() && b[i + 1] == b'*' {
+            *in_block = true;
+            i += 2;
+        } else if c == b'"' {
+            i += 1;
+            while i < b.len() && b[i] != b'"' {
+                if b[i] == b'\\' {
+                    i += 1;
+                }
+                i += 1;
+            }
+            i += 1;
+        } else if c.is_ascii_alphabetic() || c == b'_' {
+            let s = i;
+            while i < b.len() && (b[i].is_ascii_alphanumeric() || b[i] == b'_' || b[i] == b'$') {
+                i += 1;
+            }
+            // not part of a number (`8'hff`, `1_000`), of a `$system` name or of a `` `macro ``
+            let prev = if s > 0 { b[s - 1] } else { b' ' };
+            if !(prev.is_ascii_digit() || prev == b'\'' || prev == b'$' || prev == b'`') {
+                out.push(line[s..i].to_string());
+            }
+        } else if c.is_ascii_digit() || c == b'\'' {
+            // numbers incl. based literals
+            i += 1;
+            while i < b.len() && (b[i].is_ascii_alphanumeric() || b[i] == b'_' || b[i] == b'\'') {
+                i += 1;
+            }
+        } else {
+            i += 1;
+        }
+    }
+}
+
+pub type Fail = (String, String);
+
+fn kind_of(name: &str) -> &'static str {
+    if name.starts_with("//") || name.starts_with("/*") {
+        "comment"
+    } else {
+        "token"
+    }
+}
+
+fn clip(s: &str, n: usize) -> String {
+    let mut e = n.min(s.len());
+    while !s.is_char_boundary(e) {
+        e -= 1;
+    }
+    s[..e].to_string()
+}
+
+const KNOWN_ML: &str = "column-restarts-after-multiline-block-comment";
+
+/// Root-cause class of a clause-1 failure, from the output text alone.
+fn dst_context(sv: &LineTable, full: &str, e: &Entry, name: &str) -> &'static str {
+    if let Some(l) = sv.line(e.dl as usize) {
+        // A block comment opened on an earlier line ends on this line, and the
+        // name is found exactly "length of that comment tail" characters to
+        // the right of the recorded column: the renderer restarted its column
+        // count at 0 at the end of a multi-line block comment.
+        if let Some(p) = l.find("*/")
+            && !l[..p].contains("/*")
+        {
+            let tail = l[..p + 2].chars().count();
+            if let Some(off) = sv.offset(e.dl as usize, e.dc as usize + tail)
+                && full[off..].starts_with(name)
+            {
+                return KNOWN_ML;
+            }
+            return "line-has-multiline-block-comment-end";
+        }
+        if !l.is_ascii() {
+            return "multibyte-on-line";
+        }
+    }
+    "other"
+}
+
+pub fn check_map(src: &str, sv: &str, map: &[u8]) -> Result<MapReport, Fail> {
+    let starts = match src_starts(src) {
+        Ok(s) => s,
+        Err(e) => return Err(("skip".into(), e)),
+    };
+    let raw = decode_raw(map).map_err(|e| ("map-undecodable".to_string(), e))?;
+    let viacrate = decode_crate(map).map_err(|e| ("map-undecodable".to_string(), e))?;
+    {
+        // the two decoders must agree on the set of entries
+        let mut a = raw.clone();
+        let mut b = viacrate.clone();
+        a.sort();
+        b.sort();
+        if a != b {
+            return Err((
+                "harness:decoders-disagree".into(),
+                format!("own VLQ decoder: {} entries, sourcemap crate: {} entries", a.len(), b.len()),
+            ));
+        }
+    }
+    let svt = LineTable::new(sv);
+    let srct = LineTable::new(src);
+    let mut rep = MapReport {
+        entries: raw.len(),
+        ..Default::default()
+    };
+    let mut lines_with_entry: BTreeSet<u32> = BTreeSet::new();
+    let mut prev: Option<(u32, u32)> = None;
+    let mut known: Option<Fail> = None;
+    for (i, e) in raw.iter().enumerate() {
+        let Some(name) = e.name.as_deref() else {
+            return Err(("entry-without-name".into(), format!("entry #{i} at output {}:{} has no name", e.dl, e.dc)));
+        };
+        let kind = kind_of(name);
+        if kind == "comment" {
+            rep.comment_entries += 1;
+        }
+        if name.contains('\n') {
+            rep.multiline_names += 1;
+        }
+        // clause 1.  An entry with an empty name (the start-of-file token, a
+        // separator the emitter drops) has no text that could start anywhere:
+        // vacuous, counted.
+        let ok = svt
+            .offset(e.dl as usize, e.dc as usize)
+            .map(|off| sv[off..].starts_with(name))
+            .unwrap_or(false);
+        if name.is_empty() {
+            rep.empty_names += 1;
+            if !ok {
+                rep.empty_names_beyond_line_end += 1;
+            }
+        } else if !ok && known.is_none() && dst_context(&svt, sv, e, name) == KNOWN_ML {
+            // listed finding: remember it, keep checking the other entries so
+            // that it cannot mask a different violation
+            known = Some((
+                format!("dst-not-at-name:{KNOWN_ML}"),
+                format!(
+                    "entry #{i} name {:?} -> output line {} col {} (0-based), but the name starts {} characters further right, after the end of a block comment that began on an earlier line; output line: {:?}",
+                    clip(name, 40),
+                    e.dl,
+                    e.dc,
+                    svt.line(e.dl as usize)
+                        .and_then(|l| l.find("*/").map(|p| l[..p + 2].chars().count()))
+                        .unwrap_or(0),
+                    svt.line(e.dl as usize).map(|l| clip(l, 160))
+                ),
+            ));
+        } else if !ok && known.is_some() && dst_context(&svt, sv, e, name) == KNOWN_ML {
+            // further entries displaced by the same root cause
+        } else if !ok {
+            let there = svt
+                .offset(e.dl as usize, e.dc as usize)
+                .map(|off| clip(&sv[off..], 40))
+                .unwrap_or_else(|| "<beyond the end of the line>".into());
+            return Err((
+                format!("dst-not-at-name:{}", dst_context(&svt, sv, e, name)),
+                format!(
+                    "entry #{i} name {:?} -> output line {} col {} (0-based), but the output has {:?} there; output line: {:?}",
+                    clip(name, 40),
+                    e.dl,
+                    e.dc,
+                    there,
+                    svt.line(e.dl as usize).map(|l| clip(l, 160))
+                ),
+            ));
+        }
+        if let Some(l) = svt.line(e.dl as usize)
+            && let Some(off) = svt.offset(e.dl as usize, e.dc as usize)
+        {
+            let _ = l;
+            let line_start = sv[..off].rfind('\n').map(|p| p + 1).unwrap_or(0);
+            if !sv[line_start..off].is_ascii() {
+                rep.multibyte_before_dst += 1;
+            }
+        }
+        // clause 2
+        let p = (e.sl, e.sc);
+        let hit = starts.comment_starts.contains(&p)
+            || starts.token_starts.contains(&p)
+            || (name.is_empty() && starts.empty_token_starts.contains(&p));
+        if !hit {
+            let there = srct
+                .offset(e.sl as usize, e.sc as usize)
+                .map(|off| clip(&src[off..], 30))
+                .unwrap_or_else(|| "<beyond the end of the line>".into());
+            let ctx = match srct.line(e.sl as usize) {
+                Some(l) if !l.is_ascii() => "multibyte-on-line",
+                Some(_) => "ascii-line",
+                None => "no-such-line",
+            };
+            let sig = format!("src-not-a-start:{kind}:{ctx}");
+            return Err((
+                sig,
+                format!(
+                    "entry #{i} name {:?} (output {}:{}) -> source line {} col {} (0-based), which is not the start of a token or comment; the source has {:?} there; source line: {:?}",
+                    clip(name, 40),
+                    e.dl,
+                    e.dc,
+                    e.sl,
+                    e.sc,
+                    there,
+                    srct.line(e.sl as usize).map(|l| clip(l, 160))
+                ),
+            ));
+        }
+        if let Some(l) = srct.line(e.sl as usize)
+            && let Some(off) = srct.offset(e.sl as usize, e.sc as usize)
+        {
+            let line_start = src[..off].rfind('\n').map(|p| p + 1).unwrap_or(0);
+            let _ = l;
+            if !src[line_start..off].is_ascii() {
+                rep.multibyte_before_src += 1;
+            }
+        }
+        // clause 3
+        if let Some(pv) = prev
+            && (e.dl, e.dc) < pv
+        {
+            return Err((
+                "entries-out-of-order".into(),
+                format!("entry #{i} at output {}:{} follows an entry at {}:{}", e.dl, e.dc, pv.0, pv.1),
+            ));
+        }
+        prev = Some((e.dl, e.dc));
+        // a multi-line name (block comment, embedded code) covers its continuation lines too
+        for k in 0..=name.matches('\n').count() as u32 {
+            lines_with_entry.insert(e.dl + k);
+        }
+    }
+    // clause 4: mapped identifiers = identifier tokens of the source that the
+    // map maps somewhere (they are the name of an entry)
+    let mapped_idents: BTreeSet<&str> = raw
+        .iter()
+        .filter_map(|e| e.name.as_deref())
+        .filter(|n| starts.ident_words.contains(*n))
+        .collect();
+    rep.mapped_idents = mapped_idents.len();
+    let mut in_block = false;
+    let mut words = Vec::new();
+    let nlines = svt.lines();
+    for li in 0..nlines {
+        let Some(l) = svt.line(li) else { break };
+        words.clear();
+        let started_in_block = in_block;
+        sv_line_words(l, &mut in_block, &mut words);
+        let _ = started_in_block;
+        let Some(w) = words.iter().find(|w| mapped_idents.contains(w.as_str())) else {
+            if !words.is_empty() {
+                rep.lines_outside_clause4 += 1;
+            }
+            continue;
+        };
+        if l.trim_start().starts_with('`') {
+            // compiler directive (`ifdef NAME …): NAME is a text-macro name, not
+            // an identifier of the design; the emitter writes the guards of
+            // expanded default modports itself
+            if !lines_with_entry.contains(&(li as u32)) {
+                rep.directive_lines_without_entry += 1;
+            }
+            continue;
+        }
+        rep.ident_lines += 1;
+        if !lines_with_entry.contains(&(li as u32)) {
+            return Err((
+                "line-with-mapped-identifier-has-no-entry".into(),
+                format!(
+                    "output line {li} (0-based) contains the identifier {w:?} (a source identifier that the map maps elsewhere) but no map entry points into this line: {:?}",
+                    clip(l, 160)
+                ),
+            ));
+        }
+    }
+    if let Some(k) = known {
+        return Err(k);
+    }
+    Ok(rep)
+}
+
+// ---------------------------------------------------------------------------
+// cases
+// ---------------------------------------------------------------------------
+
+#[derive(Clone, Debug)]
+pub struct MapOpts {
+    pub fmt: FmtOpts,
+    pub strip_comments: bool,
+    /// 0 = sourcemap_target "target" (map next to the .sv), 1 = "directory"
+    pub map_target: u8,
+}
+
+impl MapOpts {
+    pub fn draw(d: &mut Draw) -> MapOpts {
+        MapOpts {
+            fmt: FmtOpts::draw(d),
+            strip_comments: d.chance(1, 4),
+            map_target: d.weighted(&[3, 1]) as u8,
+        }
+    }
+    pub fn describe(&self) -> String {
+        format!(
+            "{} strip_comments={} sourcemap_target={}",
+            self.fmt.describe(),
+            self.strip_comments,
+            ["target", "directory"][self.map_target as usize]
+        )
+    }
+    pub fn metadata(&self) -> veryl_metadata::Metadata {
+        let mut md = pipe::metadata(&self.fmt);
+        md.build.strip_comments = self.strip_comments;
+        md.build.sourcemap_target = match self.map_target {
+            0 => veryl_metadata::SourceMapTarget::Target,
+            _ => veryl_metadata::SourceMapTarget::Directory { path: "map".into() },
+        };
+        md
+    }
+    pub fn paths(&self, src: &str) -> (PathBuf, PathBuf) {
+        let stem = Path::new(src).file_stem().map(|s| s.to_string_lossy().into_owned()).unwrap_or("a".into());
+        let dst = PathBuf::from(format!("/prj/target/{stem}.sv"));
+        let map = match self.map_target {
+            0 => PathBuf::from(format!("/prj/target/{stem}.sv.map")),
+            _ => PathBuf::from(format!("/prj/map/src/{stem}.sv.map")),
+        };
+        (dst, map)
+    }
+}
+
+/// How a corpus file builds.
+#[derive(Clone, Debug, PartialEq, Eq)]
+pub enum Mode {
+    Alone,
+    /// together with every other file of its group (index into `Corpus::groups`)
+    Group(usize),
+}
+
+pub struct CorpusFile {
+    pub path: String,
+    pub text: String,
+    pub prj: String,
+    pub group: usize,
+}
+
+pub struct Corpus {
+    pub files: Vec<CorpusFile>,
+    /// indices of the files of each group (0 = testcases, 1 = std)
+    pub groups: Vec<Vec<usize>>,
+    /// (file index, mode) of every file that builds
+    pub buildable: Vec<(usize, Mode)>,
+}
+
+fn try_build(c: &Corpus, idx: usize, mode: &Mode, text: Option<&str>, o: &MapOpts) -> BuildResult {
+    let md = o.metadata();
+    let f = &c.files[idx];
+    let (dst, map) = o.paths(&f.path);
+    let mk = |i: usize| SrcFile {
+        path: c.files[i].path.clone(),
+        text: if i == idx { text.unwrap_or(&c.files[i].text).to_string() } else { c.files[i].text.clone() },
+        prj: c.files[i].prj.clone(),
+    };
+    match mode {
+        Mode::Alone => pipe::build_one(&[mk(idx)], 0, &md, &dst, &map),
+        Mode::Group(g) => {
+            let members = &c.groups[*g];
+            let files: Vec<SrcFile> = members.iter().map(|i| mk(*i)).collect();
+            let at = members.iter().position(|i| *i == idx).unwrap();
+            pipe::build_one(&files, at, &md, &dst, &map)
+        }
+    }
+}
+
+fn load() -> Corpus {
+    let raw = pipe::load_corpus();
+    let mut files = Vec::new();
+    let mut groups = vec![Vec::new(), Vec::new()];
+    for (path, text) in raw {
+        let std = path.contains("/crates/std/");
+        let g = if std { 1 } else { 0 };
+        groups[g].push(files.len());
+        files.push(CorpusFile {
+            path,
+            text,
+            prj: if std { "$std".into() } else { "prj".into() },
+            group: g,
+        });
+    }
+    let mut c = Corpus {
+        files,
+        groups,
+        buildable: Vec::new(),
+    };
+    // which files build alone?  (every probe on its own thread, 16 at a time)
+    let o = MapOpts {
+        fmt: FmtOpts::default(),
+        strip_comments: false,
+        map_target: 0,
+    };
+    let n = c.files.len();
+    let alone: Vec<bool> = {
+        let cref = &c;
+        let oref = &o;
+        let mut res = vec![false; n];
+        for chunk in (0..n).collect::<Vec<_>>().chunks(16) {
+            let r: Vec<(usize, bool)> = std::thread::scope(|s| {
+                let hs: Vec<_> = chunk
+                    .iter()
+                    .map(|&i| {
+                        let h = std::thread::Builder::new()
+                            .stack_size(16 << 20)
+                            .spawn_scoped(s, move || {
+                                matches!(try_build(cref, i, &Mode::Alone, None, oref), BuildResult::Emitted(..))
+                            })
+                            .expect("spawn");
+                        (i, h)
+                    })
+                    .collect();
+                hs.into_iter().map(|(i, h)| (i, h.join().unwrap_or(false))).collect()
+            });
+            for (i, ok) in r {
+                res[i] = ok;
+            }
+        }
+        res
+    };
+    // do the groups build as a whole?
+    let mut group_ok = vec![false; c.groups.len()];
+    for g in 0..c.groups.len() {
+        if c.groups[g].is_empty() {
+            continue;
+        }
+        let first = c.groups[g][0];
+        let cref = &c;
+        let oref = &o;
+        group_ok[g] = std::thread::scope(|s| {
+            std::thread::Builder::new()
+                .stack_size(16 << 20)
+                .spawn_scoped(s, move || matches!(try_build(cref, first, &Mode::Group(g), None, oref), BuildResult::Emitted(..)))
+                .expect("spawn")
+                .join()
+                .unwrap_or(false)
+        });
+    }
+    for i in 0..n {
+        if alone[i] {
+            c.buildable.push((i, Mode::Alone));
+        } else if group_ok[c.files[i].group] {
+            c.buildable.push((i, Mode::Group(c.files[i].group)));
+        }
+    }
+    c
+}
+
+fn run_case(c: &Corpus, idx: usize, mode: &Mode, text: Option<String>, o: &MapOpts, mut classes: Vec<String>) -> Outcome {
+    let f = &c.files[idx];
+    let src = text.as_deref().unwrap_or(&f.text).to_string();
+    let input = |sv: Option<&str>| json!({"file": f.path, "options": o.describe(), "mode": format!("{mode:?}"), "veryl": src, "sv": sv});
+    let (sv, map) = match try_build(c, idx, mode, text.as_deref(), o) {
+        BuildResult::Emitted(sv, map) => (sv, map),
+        BuildResult::ParseError(e) => return Outcome::skip(format!("does not parse: {}", clip(&e, 60))),
+        BuildResult::AnalysisError(_) => return Outcome::skip("does not analyse cleanly (not a design that builds)"),
+    };
+    match check_map(&src, &sv, &map) {
+        Err((sig, msg)) if sig == "skip" => Outcome::skip(msg),
+        Err((sig, msg)) => Outcome::fail(sig, format!("[{}] {}: {msg}", o.describe(), f.path), input(Some(&sv))),
+        Ok(r) => {
+            if r.empty_names > 0 {
+                classes.push("empty_name_entry(clause1 vacuous)".into());
+            }
+            if r.empty_names_beyond_line_end > 0 {
+                classes.push("empty_name_entry_beyond_line_end".into());
+            }
+            if r.directive_lines_without_entry > 0 {
+                classes.push("directive_line_without_entry(outside clause4)".into());
+            }
+            if r.comment_entries > 0 {
+                classes.push("comment_entries".into());
+            }
+            if r.multiline_names > 0 {
+                classes.push("multiline_comment_entry".into());
+            }
+            if r.multibyte_before_dst > 0 {
+                classes.push("entry_after_multibyte_text_on_output_line".into());
+            }
+            if r.multibyte_before_src > 0 {
+                classes.push("entry_after_multibyte_text_on_source_line".into());
+            }
+            if sv.contains("\r\n") {
+                classes.push("crlf_output".into());
+            }
+            if o.strip_comments {
+                classes.push("strip_comments".into());
+            }
+            if !o.fmt.vertical_align {
+                classes.push("no_vertical_align".into());
+            }
+            if o.fmt.max_width <= 40 {
+                classes.push("narrow_max_width".into());
+            }
+            if matches!(mode, Mode::Group(_)) {
+                classes.push("built_within_project".into());
+            }
+            if o.map_target == 1 {
+                classes.push("map_in_directory".into());
+            }
+            Outcome::pass(
+                hash_str(&format!("{}|{}|{}", o.describe(), f.path, src)),
+                r.entries >= 20 && r.comment_entries >= 1,
+                classes,
+                format!(
+                    "// {} [{}] entries={} comment_entries={} ident_lines={}\n{}",
+                    f.path,
+                    o.describe(),
+                    r.entries,
+                    r.comment_entries,
+                    r.ident_lines,
+                    clip(&src, 1500)
+                ),
+            )
+        }
+    }
+}
+
+pub fn run(ctx: &Ctx) {
+    let corpus = load();
+    let alone = corpus.buildable.iter().filter(|(_, m)| *m == Mode::Alone).count();
+    ctx.note("corpus_files", json!(corpus.files.len()));
+    ctx.note("buildable_alone", json!(alone));
+    ctx.note("buildable_within_project_only", json!(corpus.buildable.len() - alone));
+    assert!(corpus.buildable.len() > 50, "too few corpus files build");
+    let alone_set: Vec<(usize, Mode)> = corpus.buildable.iter().filter(|(_, m)| *m == Mode::Alone).cloned().collect();
+    let group_set: Vec<(usize, Mode)> = corpus.buildable.iter().filter(|(_, m)| *m != Mode::Alone).cloned().collect();
+
+    // sub 1: every buildable corpus file, pristine, default options and strip_comments
+    if !ctx.replay_mode() {
+        let mut jobs: Vec<(usize, Mode, bool)> = Vec::new();
+        for (idx, mode) in &corpus.buildable {
+            for strip in [false, true] {
+                jobs.push((*idx, mode.clone(), strip));
+            }
+        }
+        let cref = &corpus;
+        for chunk in jobs.chunks(16) {
+            let outs: Vec<Outcome> = std::thread::scope(|s| {
+                let hs: Vec<_> = chunk
+                    .iter()
+                    .map(|(idx, mode, strip)| {
+                        std::thread::Builder::new()
+                            .stack_size(16 << 20)
+                            .spawn_scoped(s, move || {
+                                let o = MapOpts {
+                                    fmt: FmtOpts::default(),
+                                    strip_comments: *strip,
+                                    map_target: 0,
+                                };
+                                run_case(cref, *idx, mode, None, &o, vec!["corpus_pristine".into()])
+                            })
+                            .expect("spawn")
+                    })
+                    .collect();
+                hs.into_iter()
+                    .map(|h| h.join().unwrap_or_else(|_| Outcome::fail("panic:pristine", "panic while building a pristine corpus file", json!(null))))
+                    .collect()
+            });
+            for ((idx, _, strip), out) in chunk.iter().zip(outs) {
+                ctx.record("pristine", out, json!({"file": corpus.files[*idx].path, "strip_comments": strip}));
+            }
+        }
+    }
+
+    // sub: explicit texts built alone (reproducers of listed findings)
+    ctx.run_payloads("text", |p| {
+        let text = p.get("veryl").and_then(|t| t.as_str()).unwrap_or("").to_string();
+        let u = |k: &str, dflt: u64| p.get(k).and_then(|v| v.as_u64()).unwrap_or(dflt);
+        let b = |k: &str, dflt: bool| p.get(k).and_then(|v| v.as_bool()).unwrap_or(dflt);
+        let o = MapOpts {
+            fmt: FmtOpts {
+                indent_width: u("indent_width", 4) as usize,
+                max_width: u("max_width", 120) as usize,
+                vertical_align: b("vertical_align", true),
+                newline_style: u("newline_style", 0) as u8,
+            },
+            strip_comments: b("strip_comments", false),
+            map_target: u("map_target", 0) as u8,
+        };
+        let one = Corpus {
+            files: vec![CorpusFile {
+                path: "/prj/src/explicit.veryl".into(),
+                text,
+                prj: "prj".into(),
+                group: 0,
+            }],
+            groups: vec![vec![0]],
+            buildable: vec![(0, Mode::Alone)],
+        };
+        pipe::on_fresh_thread(|| run_case(&one, 0, &Mode::Alone, None, &o, vec!["explicit".into()]))
+    });
+
+    let gen_case = |d: &mut Draw, set: &[(usize, Mode)]| -> Outcome {
+        let (idx, mode) = &set[d.below_usize(set.len())];
+        let o = MapOpts::draw(d);
+        let f = &corpus.files[*idx];
+        let mut classes = vec![];
+        let text = if d.chance(1, 8) {
+            classes.push("pristine_text".to_string());
+            None
+        } else {
+            let Some(pieces) = relayout::pieces(&f.text) else {
+                return Outcome::skip("corpus file does not tokenise");
+            };
+            let mut lo = LayoutOpts::draw(d);
+            if lo.inject_per_mille == 0 && d.chance(3, 4) {
+                lo.inject_per_mille = 40;
+            }
+            if d.chance(1, 2) {
+                lo.multibyte = true;
+            }
+            // Comments are injected here rather than by relayout(): block
+            // comments that span lines reach the listed finding
+            // (column restarts after a multi-line block comment) whenever the
+            // emitter puts anything after them on the line, so only one case in
+            // six keeps them multi-line; the others get them on one line.
+            let inject = std::mem::replace(&mut lo.inject_per_mille, 0);
+            let leading = std::mem::replace(&mut lo.leading_comment, false);
+            let multiline_ok = d.chance(1, 6);
+            let mut flattened = 0usize;
+            let mut mk = |d: &mut Draw| {
+                let mut c = relayout::gen_comment(d, lo.multibyte);
+                if !multiline_ok && c.text.contains('\n') {
+                    c.text = c.text.replace('\n', " ");
+                    flattened += 1;
+                }
+                c
+            };
+            let mut seq = Vec::with_capacity(pieces.len() + 16);
+            if leading {
+                seq.push(mk(d));
+            }
+            for p in &pieces {
+                let is_comment = matches!(p.kind, relayout::PieceKind::LineComment | relayout::PieceKind::BlockComment);
+                if is_comment && !lo.keep_comments {
+                    continue;
+                }
+                seq.push(p.clone());
+                if p.kind == relayout::PieceKind::Token && p.text != "{{{" && inject > 0 && d.below(1000) < inject {
+                    seq.push(mk(d));
+                    if d.chance(1, 5) {
+                        seq.push(mk(d));
+                    }
+                }
+            }
+            lo.keep_comments = true;
+            if multiline_ok {
+                classes.push("multiline_block_comments_injected".into());
+            }
+            let t = relayout::relayout(d, &seq, &lo);
+            if !t.is_ascii() {
+                classes.push("multibyte_source".into());
+            }
+            if t.contains("\r\n") {
+                classes.push("crlf_source".into());
+            }
+            Some(t)
+        };
+        // relayout::pieces parsed on this thread; the build needs a fresh one
+        pipe::on_fresh_thread(|| run_case(&corpus, *idx, mode, text, &o, classes))
+    };
+
+    let n = ctx.scale(800, 40_000);
+    ctx.run("relayout", CaseCfg::cases(n).choices(8000).stack_mb(16), |d| gen_case(d, &alone_set));
+    if !group_set.is_empty() {
+        let n = ctx.scale(60, 3_000);
+        ctx.run("relayout-in-project", CaseCfg::cases(n).choices(8000).stack_mb(16), |d| gen_case(d, &group_set));
+    }
+
+    ctx.assume("map conventions: 0-based lines and columns, lines separated by \\n, columns counted in characters (Unicode scalar values) on both sides");
+    ctx.assume("token byte ranges are the parser's (verified against the text); line/column of every start and all comment starts are recomputed from the raw text");
+    ctx.assume("'mapped identifier' (clause 4) = identifier word of the output, outside comments/strings, whose text is an Identifier token of the source file and the name of at least one entry of the map; an entry with a multi-line name (block comment, embedded code) covers all the lines of its name");
+    ctx.finish(
+        "exploration",
+        "corpus files that build (alone or as a member of their project) pristine and re-laid with generated separators and injected line/block/multi-line/multi-byte comments x generated indent_width/max_width/vertical_align/newline_style/strip_comments/sourcemap_target; non-trivial = map with >=20 entries and >=1 comment entry; distinct by (options, file, text) hash",
+    );
+}
+
+/// Developer aid: build one file alone with default options and print every
+/// output line followed by the entries pointing into it.
+pub fn dump(path: &str) {
+    let text = std::fs::read_to_string(path).expect("read");
+    let o = MapOpts {
+        fmt: FmtOpts::default(),
+        strip_comments: false,
+        map_target: 0,
+    };
+    let md = o.metadata();
+    let (dst, map) = o.paths(path);
+    let files = [SrcFile {
+        path: path.to_string(),
+        text: text.clone(),
+        prj: "prj".into(),
+    }];
+    let r = pipe::on_fresh_thread(|| pipe::build_one(&files, 0, &md, &dst, &map));
+    let BuildResult::Emitted(sv, mapb) = r else {
+        match r {
+            BuildResult::ParseError(e) | BuildResult::AnalysisError(e) => println!("does not build: {e}"),
+            _ => {}
+        }
+        return;
+    };
+    let entries = decode_raw(&mapb).expect("decode");
+    for (li, l) in sv.split('\n').enumerate() {
+        println!("{li:4} | {l}");
+        for e in entries.iter().filter(|e| e.dl as usize == li) {
+            println!("       @{} <- {}:{} {:?}", e.dc, e.sl, e.sc, e.name.as_deref().map(|n| clip(n, 30)));
+        }
+    }
+    println!("{:?}", pipe::on_fresh_thread(|| check_map(&text, &sv, &mapb)));
 }
